@@ -30,6 +30,7 @@ type world struct {
 	fieldIDs  map[string]int // "pkg.Struct.field" -> fid
 	fieldByID map[int]fieldInfo
 	fidsSorted []int
+	reachCache map[string]bool
 	inScopeFn func(fn *ssa.Function, layer string) bool // set by the engine: fn belongs to the sweep of the layer's property
 	impls     map[string][]*types.Named // interface full name -> implementing pointer-receiver named types (module)
 	modsets   map[*ssa.Function]map[string]bool
